@@ -455,7 +455,7 @@ func (te *TemplateEngine) renderConditionals(content string, conditions map[stri
 			blockContent := matches[2]
 
 			// 检查是否有else部分
-			elsePattern := regexp.MustCompile(`(?s)(.*?)\{\{else\}\}(.*?)`)
+			elsePattern := regexp.MustCompile(`(?s)^(.*?)\{\{else\}\}(.*)$`)
 			elseMatches := elsePattern.FindStringSubmatch(blockContent)
 
 			if len(elseMatches) >= 3 {
@@ -615,7 +615,7 @@ func (te *TemplateEngine) renderLoopConditionals(content string, itemData map[st
 			blockContent := matches[2]
 
 			// 检查是否有else部分
-			elsePattern := regexp.MustCompile(`(?s)(.*?)\{\{else\}\}(.*?)`)
+			elsePattern := regexp.MustCompile(`(?s)^(.*?)\{\{else\}\}(.*)$`)
 			elseMatches := elsePattern.FindStringSubmatch(blockContent)
 
 			var ifContent, elseContent string
